@@ -174,3 +174,17 @@ let () = Reg.register "c12.shipped" (fun inp out ->
       | Some (toks, ovf) -> monitor src true toks ovf (get_bool hasline) false None) in
     (out, verdict)
   | _ -> failwith "c12.shipped")
+
+(* hypothesis of the C12 theorems on real tables: (name lexer has_actions).  Lexers with hand-written actions
+   (test, tm, js) are only required to pass the structural part: their entry behaviour is changed by the actions. *)
+let () = Reg.register "c12.wf" (fun inp out ->
+  match lst inp with
+  | [_; lxs; acts] ->
+    (match lxs with
+     | L [] -> (A "0", "bad:shipped-grammar-unavailable")
+     | _ ->
+       let lx = get_lexer lxs in
+       let st = LexerWf.wf_tables lx.LexerRT.lx_tables and en = LexerWf.wf_entry lx in
+       let ok = st && (en || get_bool acts) in
+       (L [put_bool st; put_bool (en || get_bool acts)], if ok then "ok" else "bad:lexer-tables-not-well-formed"))
+  | _ -> failwith "c12.wf")
